@@ -23,7 +23,7 @@ from .. import common, corr_parse, gen, gram, peg_ref
 META = dict(
     text="(1) CLOSED theorem for the plain fragment (PPProofs/Props/C01Sem.lean over the declarative big-step PEG reading "
          "`Sem` of Props/C01SemDef.lean - one inductive relation with the whitespace rule, ordered choice, greedy "
-         "non-backtracking repetition, lookaheads, Group/Suppress/Forward): plain_parse_sound (for EVERY plain node table - "
+         "non-backtracking repetition, longest-leftmost `^`, lookaheads, Group/Suppress/Combine/Forward): plain_parse_sound (for EVERY plain node table - "
          "arbitrary sharing and recursion through Forward, any skipWhitespace/whiteChars/callPreparse configuration - every "
          "input, location, callPreParse/doActions value and fuel: a match returned by the transcribed _parseNoCache is the "
          "reading's match with the same end and tokens, a ParseException means the reading has no match, and no fatal "
@@ -37,17 +37,17 @@ META = dict(
          "Forward recursing without consuming); parse_string_iff_sem / parse_string_all_iff_sem (the same at the transcribed "
          "entry point parse_string, without and with parse_all); plainTable_iff "
          "(the driver's executable test is exactly the hypothesis). The driver reports per compared grammar whether the "
-         "hypothesis holds (evidence: plain_fragment; about 3/4 of the generated grammars). Plain = Literal, Empty, NoMatch, "
+         "hypothesis holds (evidence: plain_fragment; every small-scope grammar and about 7/8 of the random deep grammars). Plain = Literal, Empty, NoMatch, "
          "StringEnd, Word/CharsNotIn/Keyword/CaselessLiteral/LineEnd/WordStart/WordEnd as given terminal matchers, And, "
-         "MatchFirst, Opt (also with a default), OneOrMore/ZeroOrMore, NotAny, FollowedBy, Group, Suppress, Combine, Forward; no "
+         "MatchFirst, Or, Opt (also with a default), OneOrMore/ZeroOrMore, NotAny, FollowedBy, Group, Suppress, Combine, Forward; no "
          "actions/names, ignorables, "
          "error stops, stop_on. "
          "(2) Outside the fragment, clause theorems (PPProofs/Props/C01.lean), each for ALL sub-expression behaviours, inputs, "
          "locations and list shapes: and_rest_iff_chain, matchfirst_first, or_longest_leftmost + sortDesc_head + best_spec + "
-         "orPass1_cands (the two-pass Or returns the longest trial match, leftmost on ties), rep_greedy_no_giveback and "
+         "orPass1_cands (the two-pass Or returns the longest trial match, leftmost on ties; used by the closed theorem), rep_greedy_no_giveback and "
          "rep_iterations_advance, lookahead_consumes_nothing, notany_iff, opt_spec, zeroOrMore_spec, group_nests / "
          "suppress_omits / combine_joins, and the whitespace rule skipWhite_stops / skipWhite_skips_only_white / "
-         "preParse_is_skipWhite / skip_then_match. PARTIAL w.r.t. the statement: Or, SkipTo, DelimitedList, "
+         "preParse_is_skipWhite / skip_then_match. PARTIAL w.r.t. the statement: SkipTo, DelimitedList, "
          "Located, stop_on, actions and ignorables have clause theorems or model coverage only, no closed theorem; Each and Regex are "
          "outside the model (reference interpreter / zoo only). The global statement on the real code is decided by the "
          "independent reference interpreter of the reading (harness/peg_ref.py) run against the real parse_string over "
